@@ -534,5 +534,5 @@ func keys(m map[string]bool) []string {
 }
 
 func TestC15(t *testing.T) {
-	drv.Main(t, drv.Driver{ID: "C15", Gen: gen15, Run: run15, CaseTimeout: 10 * time.Minute})
+	drv.Main(t, drv.Driver{ID: "C15", Gen: gen15, Run: run15, CaseTimeout: 60 * time.Minute})
 }
